@@ -1,7 +1,7 @@
 (* C05 — every encodable value decodes back to itself, in the size it declared.
    Only the property theorems live here; proofs are in Proofs/Wire.v and Proofs/Frames.v. *)
 From Coq Require Import List ZArith.
-From GQ Require Import Lib.Wire Model.Varint Model.Frames Proofs.Wire Proofs.Frames.
+From GQ Require Import Lib.Wire Model.Varint Model.Frames Model.Packets Model.Params Proofs.Wire Proofs.Frames Proofs.Packets.
 Import ListNotations.
 Local Open Scope Z_scope.
 
@@ -34,6 +34,27 @@ Proof. exact p_c05_size. Qed.
 Theorem c05_frame_max : forall f, wf_frame f -> encoding_size f <= max_encoding_size f.
 Proof. exact p_c05_max. Qed.
 
+(* packet type byte(s) and headers of all six kinds (connection-id lengths 0..20, any token) *)
+Theorem c05_packet_type_rt : forall t rest, be_packet_type (put_packet_type t ++ rest) = TOk t rest.
+Proof. exact p_c05_packet_type_rt. Qed.
+
+Theorem c05_header_rt : forall h n rest, wf_header h -> htail_ok h rest -> dcid_len_of h n ->
+  be_header (header_type h) n (skipn (length (put_packet_type (header_type h))) (put_header h) ++ rest) = Ok h rest.
+Proof. exact p_c05_header_body_rt. Qed.
+
+Theorem c05_header_size : forall h, wf_header h ->
+  match h with HVN _ _ _ | HRetry _ _ _ _ => True | _ => zlen (put_header h) = header_size h end.
+Proof. exact p_c05_header_size. Qed.
+
+(* transport parameters: any list of entries legal for the sender's role (ids from the regenerated
+   table, values of the prescribed type, within bounds) parses back to the map those entries define *)
+Theorem c05_params_rt : forall r l, Forall (wf_entry r) l ->
+  parse_loop (S (length (put_params l))) r [] (put_params l) = PaOk (set_list l).
+Proof. exact p_c05_params_rt. Qed.
+
+Theorem c05_params_lookup : forall l id, pm_get (set_list l) id = last_value l id None.
+Proof. exact set_list_get. Qed.
+
 (* non-vacuity: concrete well-formed frames of the three historically defective kinds *)
 Example c05_nonvacuous :
   wf_frame (NewToken (repeat 7 70)) /\ wire_size (NewToken (repeat 7 70)) = 73 /\
@@ -49,4 +70,9 @@ Print Assumptions c05_frame_type_inj.
 Print Assumptions c05_frame_rt.
 Print Assumptions c05_frame_size.
 Print Assumptions c05_frame_max.
+Print Assumptions c05_packet_type_rt.
+Print Assumptions c05_header_rt.
+Print Assumptions c05_header_size.
+Print Assumptions c05_params_rt.
+Print Assumptions c05_params_lookup.
 Print Assumptions c05_nonvacuous.
